@@ -892,6 +892,13 @@ MUTANTS = {
           "    else:\n"
           "      scale = 1.0\n\n"
           "    # This is an approximiation from")]),
+    "m144_bn_options_only_if_truthy": dict(expect=["C15"], edits=[
+        E("qkeras/qdepthwiseconv2d_batchnorm.py",
+          "        axis=axis, momentum=momentum, epsilon=epsilon, "
+          "center=center,\n",
+          "        axis=axis, momentum=momentum or 0.99, "
+          "epsilon=epsilon or 0.001,\n"
+          "        center=center,\n")]),
     "m95_po2_operand_converted_in_place": dict(expect=["C17"], edits=[
         E(QO + "adder_factory.py",
           "    local_quantizer_1 = copy.deepcopy(quantizer_1)\n"
@@ -1285,6 +1292,24 @@ BENIGN = {
         os.path.dirname(os.path.abspath(__file__)), "benign_patches",
         "b67_reduce_axes_memo_keyed_by_format.diff")),
     # --- round 19 ---------------------------------------------------------
+    "b75_bn_options_without_unset_ones": dict(props=["C15", "C13", "C14"],
+                                              edits=[
+        E("qkeras/qconv2d_batchnorm.py",
+          "    self.batchnorm = layers.BatchNormalization(\n"
+          "        axis=axis, momentum=momentum, epsilon=epsilon, "
+          "center=center,\n"
+          "        scale=scale, beta_initializer=beta_initializer,\n",
+          "    bn_core = dict(axis=axis, momentum=momentum, epsilon=epsilon,\n"
+          "                   center=center, scale=scale)\n"
+          "    bn_core = {k: v for k, v in bn_core.items() if v is not None}\n"
+          "    self.batchnorm = layers.BatchNormalization(\n"
+          "        beta_initializer=beta_initializer,\n"),
+        E("qkeras/qconv2d_batchnorm.py",
+          "        virtual_batch_size=virtual_batch_size, "
+          "adjustment=adjustment)\n",
+          "        virtual_batch_size=virtual_batch_size, "
+          "adjustment=adjustment,\n"
+          "        **bn_core)\n")]),
     "b72_shape_alternation_by_any": dict(props=["C19", "C18"], edits=[
         E("qkeras/qtools/qtools_util.py",
           "    return \"MaxPool\" in lname or \"Reshape\" in lname or "
